@@ -120,6 +120,16 @@ Fixpoint run04 (mode : N) (bkeys ckeys : list bytes) (steps : list step04) (s a 
                              existsb (fun w => let '(k, dd, f) := w in
                                 bytes_eqb k (g_key g) && bytes_eqb dd (g_data g) && (f =? g_flags g)) written) rs
           | _ => true
+          end &&
+          (* an append/prepend that succeeds extends a value some single write stored in full *)
+          match q, t_res st with
+          | HCat fr k dd, HDone =>
+              match abs_entry d now k with
+              | Some e => existsb (fun w => let '(k', wd, f) := w in
+                            bytes_eqb k' k && bytes_eqb (e_data e) (if fr then dd ++ wd else wd ++ dd) && (f =? e_flags e)) written
+              | None => true
+              end
+          | _, _ => true
           end
         else
           res_matches o (t_res st) && confined q (t_log st) &&
